@@ -2,10 +2,23 @@
 {'harness': 'c06',
  'props': 'Props/C06.v',
  'models': ['Model/Csv.v', 'Model/Fixed.v', 'Model/Delim.v', 'Model/DelimPack.v'],
- 'trusted': ['encoding/csv.Reader (as configured by both csv readers), bufio.Reader.ReadLine / '
-             'ios.ByteReadLine, utf8.DecodeRune, strings.TrimSpace, strings.Join and regexp matching are '
-             'modelled from their sources, not verified; the correspondence runs compare the model with the '
-             'real readers and the csv model with encoding/csv on every generated table',
-             'regular expressions enter the theorems as an arbitrary match function; the executable model '
-             'covers `^literal` and `literal`'],
- 'assumptions': []}
+ 'trusted': ['PROVED over the models (Props/C06.v): csv round trip for every valid delimiter and table incl. '
+             'replace_double_quotes; old csv: column fidelity, delivery order, every header_row_index / data_row_index '
+             '(physical-line jump), header rejection incl. a header line the decoder fails on, input failure fatal at once (N10); '
+             'csv2: buffer index arithmetic, rows based and header/footer records, delivery order over any call sequence; '
+             'fixed-length: rune slice spec (any bytes, valid UTF-8 re-encoding, huge lengths), ByteReadLine fragment joining '
+             '(every terminated line of any length; F22 exactly), only empty lines ignored, old reader: first matching line wins, '
+             'by_rows / by_header_footer Reads; fixedlength2: no stale buffer reference, column fidelity and delivery order over any call sequence',
+             'EXTRACTED on every run (coq/Gen/CsvCfg.v, harness/cmd/extract/gen_csvcfg.go): the encoding/csv.Reader settings both '
+             'NewReader functions assign (Comma = first rune of the delimiter, FieldsPerRecord, LazyQuotes, TrimLeadingSpace, '
+             'ReuseRecord, Comment) and the replace_double_quotes byte pair; Model.Csv.csv_next runs the transcription only for '
+             'that configuration, so a change of the settings breaks every csv theorem (csv_reader_configuration)',
+             'MODELLED from source, compared only (correspondence runs, every generated table also against encoding/csv itself): '
+             'encoding/csv readLine/readRecord for the extracted configuration, bufio.Reader.ReadLine with its 4096-byte buffer, '
+             'ios.ByteReadLine, utf8.DecodeRune/EncodeRune (Base/Utf8.v), strings.TrimSpace (exact for valid UTF-8), strings.Join',
+             'regular expressions enter the theorems as an arbitrary match function; the executable model covers `^literal` and `literal`',
+             'the hierarchy reader above the csv2 / fixedlength2 record readers is C05\'s subject: theorems quantify over every call '
+             'sequence; the correspondence runs use the flat (no groups) instance transcribed in Model/Delim.v'],
+ 'assumptions': ['f22_guard (known finding F22): read_line = ideal line reader needs "the text contains an LF or the unterminated '
+                 'last line is shorter than the 4096-byte buffer"; fixed_last_line_refuted / read_line_unterminated_exact state the loss',
+                 'the input source never returns data together with io.EOF (bytes/strings readers, files)']}
